@@ -34,6 +34,9 @@ Definition mirror (L : nat) (s : tstep) : tstep :=
 (* one full TDVP step: forward decisions [ones_f] in site order, backward decisions [ones_b] in site order *)
 Definition sweep (ones_f ones_b : list bool) : list tstep :=
   let L := length ones_f in fw 0 ones_f false ++ map (mirror L) (fw 0 (rev ones_b) false).
+(* which operator tensors of the Hamiltonian handed to this call a step works with *)
+Definition step_ops (s : tstep) : list nat :=
+  match s with TSite i _ => [i] | TBond _ => [] | TPair i => [i; S i] end.
 Definition decisions (cap : nat) (bond_right : list nat) : list bool := map (fun d => cap <=? d) bond_right.
 
 (* time accounting of the projector-splitting decomposition, in units of h: a two-site step on (i,i+1) covers the
